@@ -101,6 +101,29 @@ fn drive(seed: u64, zst_first: bool, never_alloc: bool, steps: usize) -> Vec<(u8
             let _ = b.alloc(());
             trace.push((0, b.chunk_capacity(), b.allocated_bytes(), sum));
         }
+        // zero-sized values through every other entry point that can touch the bump pointer
+        // while the arena is still chunk-less
+        let e1 = b.alloc_try_with(|| -> Result<std::convert::Infallible, ()> { Err(()) }).is_err();
+        let e2 = b.try_alloc_try_with(|| -> Result<std::convert::Infallible, ()> { Err(()) }).is_err();
+        let _ = b.alloc_try_with(|| -> Result<(), std::convert::Infallible> { Ok(()) });
+        let _: &mut [()] = b.alloc_slice_fill_with(3, |_| ());
+        let _ = b.alloc_slice_try_fill_with::<(), _, ()>(2, |i| if i == 1 { Err(()) } else { Ok(()) });
+        let _: &mut [u64] = b.alloc_slice_fill_default(0);
+        let _ = b.alloc_str("");
+        {
+            let l0 = Layout::from_size_align(0, 8).unwrap();
+            if let Ok(p) = (&b).allocate(l0) {
+                let p = p.cast::<u8>();
+                if let Ok(q) = unsafe { (&b).shrink(p, l0, Layout::from_size_align(0, 4).unwrap()) } {
+                    let q = q.cast::<u8>();
+                    if let Ok(r2) = unsafe { (&b).grow(q, Layout::from_size_align(0, 4).unwrap(), Layout::from_size_align(0, 4).unwrap()) } {
+                        unsafe { (&b).deallocate(r2.cast(), Layout::from_size_align(0, 4).unwrap()) };
+                    }
+                }
+            }
+        }
+        sum = sum.wrapping_add(e1 as u64 + e2 as u64);
+        trace.push((0, b.chunk_capacity(), b.allocated_bytes(), sum));
     }
     if never_alloc {
         for _ in 0..steps {
